@@ -905,8 +905,8 @@ class PolygonalROI(VertexROIBase):
 
         if not self.defined():
             raise UndefinedROI
-        # Do not include starting vertex twice!
-        if self.vx[-1] == self.vx[0] and self.vy[-1] == self.vy[0]:
+        # Do not include starting vertex twice! (unless there is only one)
+        if len(self.vx) > 1 and self.vx[-1] == self.vx[0] and self.vy[-1] == self.vy[0]:
             return np.mean(self.vx[:-1]), np.mean(self.vy[:-1])
         else:
             return np.mean(self.vx), np.mean(self.vy)
